@@ -31,6 +31,7 @@ const (
 	sigF5  = "F5-manifest-zero-filled-tail-badchecksum"
 	sigF6  = "F6-rejected-changeset-residue"
 	sigF16 = "F22-manifest-truncated-tail-len-gt-filesize"
+	sigTorn = "c17-append-after-torn-tail-lost-or-unreadable"
 )
 
 var m17Castagnoli = crc32.MakeTable(crc32.Castagnoli)
@@ -166,6 +167,9 @@ func m17LevelsConsistent(st m17State) bool {
 }
 
 type m17Step struct {
+	Tear   bool     `json:"tear,omitempty"` // MANIFEST cut to Cut bytes (Zero: zero-filled to its old size) while closed, then opened
+	Cut    int      `json:"cut,omitempty"`
+	Zero   bool     `json:"zero,omitempty"`
 	Reopen bool     `json:"reopen,omitempty"`
 	Cs     []m17Ch  `json:"cs,omitempty"`
 	Ord    []uint64 `json:"ord,omitempty"`
@@ -175,7 +179,9 @@ type m17Step struct {
 func m17StepsTerm(steps []m17Step) string {
 	items := make([]string, len(steps))
 	for i, s := range steps {
-		if s.Reopen {
+		if s.Tear {
+			items[i] = fmt.Sprintf("(STear %d%%nat %s, %d)", s.Cut, Bool(s.Zero), s.Code)
+		} else if s.Reopen {
 			items[i] = fmt.Sprintf("(SReopen, %d)", s.Code)
 		} else {
 			items[i] = fmt.Sprintf("(SAdd %s %s, %d)", m17CsTerm(s.Cs), m17IdsTerm(s.Ord), s.Code)
@@ -202,6 +208,8 @@ type m17Seq struct {
 	bounds  []m17Bound      // record boundaries of the current file with the spec at that point
 	reopens int
 	rejects int
+	tears   int  // torn tails recovered by a re-open so far
+	addsAfterTear int
 	dead    bool // the manifestFile's own MANIFEST no longer replays (F6 consequence): stop the sequence
 	maxLvl  uint32
 }
@@ -309,6 +317,9 @@ func (s *m17Seq) add(cs []m17Ch) {
 		}
 	}
 	accepted, touched := s.spec.apply(cs)
+	if err == nil {
+		s.addsAfterTear++
+	}
 	if err != nil {
 		s.rejects++
 		switch badger.VerifManifestErrClass(err) {
@@ -345,6 +356,98 @@ func (s *m17Seq) add(cs []m17Ch) {
 	}
 }
 
+// after a torn tail was recovered and change sets were appended, every "the MANIFEST this
+// manifestFile wrote does not replay to the accepted change sets" failure is this class
+func (s *m17Seq) lastStart() int {
+	if len(s.bounds) < 2 {
+		return 8
+	}
+	return s.bounds[len(s.bounds)-2].off
+}
+
+func (s *m17Seq) gsig(generic string) string {
+	if s.tears > 0 && s.addsAfterTear > 0 {
+		return sigTorn
+	}
+	return generic
+}
+
+// crash damage while closed: the MANIFEST is cut to `cut` bytes (zero: zero-filled up to its old
+// size), then opened read-write again (helpOpenOrCreateManifestFile truncates the torn tail)
+func (s *m17Seq) tear(cut int, zero bool) {
+	c := s.c
+	prevLive := s.mf.State()
+	file := s.file()
+	if cut > len(file) {
+		cut = len(file)
+	}
+	s.mf.Close()
+	data := append([]byte{}, file[:cut]...)
+	if zero {
+		data = append(data, make([]byte, len(file)-cut)...)
+	}
+	path := badger.VerifManifestPath(s.dir)
+	if err := os.WriteFile(path, data, 0o600); err != nil {
+		panic(err)
+	}
+	want := s.expectAt(cut)
+	st := m17Step{Tear: true, Cut: cut, Zero: zero, Code: 5}
+	mf, ret, err := badger.VerifManifestOpen(s.dir, s.ext, s.thr)
+	if err != nil {
+		st.Code = 6
+		s.steps = append(s.steps, st)
+		rd := s.replayData(J17{"cut": cut, "zero_filled": zero, "filelen": len(file)})
+		cls := badger.VerifManifestErrClass(err)
+		sig := "open-torn-tail-error:" + cls
+		switch {
+		case cls == "lensize" && !zero:
+			sig = sigF16
+		case cls == "badchecksum" && zero:
+			sig = sigF5
+		case cls == "exists" && len(s.taint) > 0:
+			sig = sigF6
+		}
+		if cut >= 8 {
+			c.Oracle(false, sig, "helpOpenOrCreateManifestFile (Open) fails on a MANIFEST with a torn tail: "+err.Error(), rd)
+		}
+		c.Case("RunTearFailed", fmt.Sprintf("(Run %s %d %s %s %s)", Zz(int64(s.thr)), s.ext, m17StepsTerm(s.steps), B(data), m17ObsTerm(prevLive)),
+			J17{"thr": s.thr, "ext": s.ext, "steps": s.steps})
+		s.mf = nil
+		s.dead = true
+		return
+	}
+	s.mf = mf
+	s.reopens++
+	s.tears++
+	s.addsAfterTear = 0
+	s.steps = append(s.steps, st)
+	after := s.file()
+	rd := s.replayData(J17{"cut": cut, "zero_filled": zero, "filelen": len(file), "after_len": len(after)})
+	d := m17Diff(m17SpecOf(ret), want.snap)
+	d = append(d, m17Diff(m17SpecOf(s.mf.State()), want.snap)...)
+	c.Oracle(len(d) == 0, s.diffSig(d, "open-torn-tail-wrong-map"), "open of a MANIFEST with a torn tail: table map is not that of the whole change sets before the damage", rd)
+	okFile := len(after) >= want.off && len(after) <= len(data) && bytes.Equal(after[:want.off], file[:want.off])
+	if okFile && !zero {
+		okFile = len(after) == want.off
+	}
+	if okFile && zero { // zero records (empty change sets) may stay
+		okFile = (len(after)-want.off)%8 == 0 && len(bytes.Trim(after[want.off:], "\x00")) == 0
+	}
+	c.Oracle(okFile, "open-torn-tail-not-truncated", "open did not cut the MANIFEST back to the whole records", rd)
+	// the change sets after the damage are gone: that is the crash, not a defect
+	s.spec = want.snap.clone()
+	var nb []m17Bound
+	for _, b := range s.bounds {
+		if b.off <= want.off {
+			nb = append(nb, b)
+		}
+	}
+	for off := want.off + 8; off <= len(after); off += 8 {
+		nb = append(nb, m17Bound{off, s.spec.clone()})
+	}
+	s.bounds = nb
+}
+
 func (s *m17Seq) reopen() {
 	c := s.c
 	prevLive := s.mf.State()
@@ -354,7 +457,7 @@ func (s *m17Seq) reopen() {
 	if err != nil {
 		st.Code = 6
 		s.steps = append(s.steps, st)
-		sig := "reopen-failed"
+		sig := s.gsig("reopen-failed")
 		if len(s.taint) > 0 && badger.VerifManifestErrClass(err) == "exists" {
 			sig = sigF6
 		}
@@ -370,7 +473,7 @@ func (s *m17Seq) reopen() {
 	s.reopens++
 	s.steps = append(s.steps, st)
 	d := m17Diff(m17SpecOf(ret), s.spec)
-	c.Oracle(len(d) == 0, s.diffSig(d, "reopen-differs-from-spec"), "helpOpenOrCreateManifestFile returned a table map different from the atomic specification",
+	c.Oracle(len(d) == 0, s.diffSig(d, s.gsig("reopen-differs-from-spec")), "helpOpenOrCreateManifestFile returned a table map different from the atomic specification",
 		s.replayData(J17{"diff": d}))
 	// after re-open the live manifest is what is durable: residue that was never written is gone
 	live := m17SpecOf(s.mf.State())
@@ -395,7 +498,7 @@ func (s *m17Seq) checkpoint() {
 		J17{"thr": s.thr, "ext": s.ext, "steps": s.steps})
 	rp, off, err := badger.VerifReplayManifest(badger.VerifManifestPath(s.dir), s.ext)
 	if err != nil {
-		sig := "replay-of-own-file-failed"
+		sig := s.gsig("replay-of-own-file-failed")
 		if len(s.taint) > 0 && badger.VerifManifestErrClass(err) == "exists" {
 			sig = sigF6
 		}
@@ -403,15 +506,15 @@ func (s *m17Seq) checkpoint() {
 		s.dead = true
 		return
 	}
-	c.Oracle(off == int64(len(file)), "replay-offset-not-filesize", "truncOffset of an intact MANIFEST is not its size", s.replayData(J17{"off": off}))
+	c.Oracle(off == int64(len(file)), s.gsig("replay-offset-not-filesize"), "truncOffset of an intact MANIFEST is not its size", s.replayData(J17{"off": off}))
 	d1 := m17Diff(m17SpecOf(rp), s.spec)
-	c.Oracle(len(d1) == 0, s.diffSig(d1, "replay-differs-from-spec"), "replayed table map differs from the atomic specification of the accepted change sets",
+	c.Oracle(len(d1) == 0, s.diffSig(d1, s.gsig("replay-differs-from-spec")), "replayed table map differs from the atomic specification of the accepted change sets",
 		s.replayData(J17{"diff": d1}))
 	d2 := m17Diff(m17SpecOf(live), s.spec)
 	c.Oracle(len(d2) == 0, s.diffSig(d2, "live-differs-from-spec"), "live in-memory table map differs from the atomic specification of the accepted change sets",
 		s.replayData(J17{"diff": d2}))
 	d3 := m17Diff(m17SpecOf(rp), m17SpecOf(live))
-	c.Oracle(len(d3) == 0, s.diffSig(d3, "replay-differs-from-live"), "replayed table map differs from the live manifest",
+	c.Oracle(len(d3) == 0, s.diffSig(d3, s.gsig("replay-differs-from-live")), "replayed table map differs from the live manifest",
 		s.replayData(J17{"diff": d3}))
 	if s.reopens == 0 && s.rejects == 0 {
 		c.Oracle(rp.Creations == live.Creations && rp.Deletions == live.Deletions, "counters-differ",
@@ -723,9 +826,29 @@ func (c *Ctx) m17Sequence(idx int) {
 	}
 	nSteps := 3 + c.Rng.Intn(22)
 	for i := 0; i < nSteps; i++ {
-		if c.Rng.Intn(12) == 0 {
+		switch r := c.Rng.Intn(24); {
+		case r < 2:
 			s.reopen()
-		} else {
+		case r < 4 && i > 0: // crash damage in the last records, or exactly at a record boundary
+			file := s.file()
+			lo := s.lastStart()
+			if len(s.bounds) > 2 && c.Rng.Intn(3) == 0 {
+				lo = s.bounds[len(s.bounds)-3].off
+			}
+			cut := lo + c.Rng.Intn(len(file)-lo+1)
+			if c.Rng.Intn(4) == 0 {
+				cut = s.bounds[len(s.bounds)-1].off
+				if c.Rng.Intn(2) == 0 {
+					cut = s.lastStart()
+				}
+			}
+			s.tear(cut, c.Rng.Intn(4) == 0 && cut < len(file))
+			g.live = g.live[:0]
+			for id := range s.spec {
+				g.live = append(g.live, id)
+			}
+			sort.Slice(g.live, func(a, b int) bool { return g.live[a] < g.live[b] })
+		default:
 			s.add(g.changeSet())
 		}
 		if c.Rng.Intn(4) == 0 || i == nSteps-1 || s.dead {
@@ -743,7 +866,7 @@ func (s *m17Seq) sweeps(nTrunc, nZero, nCorrupt, nOpen int) {
 	c := s.c
 	file := s.file()
 	n := len(file)
-	lastStart := s.bounds[len(s.bounds)-2].off
+	lastStart := s.lastStart()
 	pick := func(k int) []int { // boundary-heavy choice of cut points
 		set := map[int]bool{}
 		cand := []int{lastStart, lastStart + 1, lastStart + 3, lastStart + 4, lastStart + 7, lastStart + 8, lastStart + 9, n - 1}
@@ -812,6 +935,68 @@ func (c *Ctx) m17Boundary(idx int) {
 		}
 		if i >= ratio*k-1 || i == thr || i == thr+1 {
 			s.checkpoint()
+		}
+	}
+}
+
+// crash mid-append, open again, append, open again: every cut of the last record of a small file
+// (and the two record boundaries), rest missing or zero-filled
+func (c *Ctx) m17TearAll(variant int) {
+	base := [][]m17Ch{
+		{{Id: 1, Level: 1, Compression: 1}, {Id: 2, Level: 2, KeyId: 7}},
+		{{Id: 3, Level: 0}},
+		{{Id: 1, Op: 1}, {Id: 4, Level: 3, KeyId: 300, Compression: 2}},
+	}
+	if variant == 1 { // a last record longer than everything before it (F22 region)
+		var big []m17Ch
+		for i := uint64(0); i < 9; i++ {
+			big = append(big, m17Ch{Id: 100 + i, Level: 4, KeyId: 1 << 40, Compression: 1})
+		}
+		base = [][]m17Ch{{{Id: 1}}, big}
+	}
+	more := [][]m17Ch{{{Id: 50, Level: 5}}, {{Id: 2, Op: 1}, {Id: 51, Level: 6, Compression: 2}}}
+	// file layout of the base run
+	probe, err := m17Open(c, 10000, 0)
+	if err != nil {
+		panic(err)
+	}
+	for _, cs := range base {
+		probe.add(cs)
+	}
+	n := len(probe.file())
+	start := probe.bounds[len(probe.bounds)-2].off
+	probe.close()
+	var cuts []int
+	for cut := start; cut <= n; cut++ {
+		if variant == 1 && cut > start+12 && cut < n-3 && cut%9 != 0 {
+			continue
+		}
+		cuts = append(cuts, cut)
+	}
+	for _, cut := range cuts {
+		for _, zero := range []bool{false, true} {
+			if zero && cut == n {
+				continue
+			}
+			s, err := m17Open(c, 10000, 0)
+			if err != nil {
+				panic(err)
+			}
+			for _, cs := range base {
+				s.add(cs)
+			}
+			s.tear(cut, zero)
+			if !s.dead {
+				s.add(more[0])
+				s.checkpoint()
+				s.reopen()
+			}
+			if !s.dead {
+				s.checkpoint()
+				s.add(more[1])
+				s.checkpoint()
+			}
+			s.close()
 		}
 	}
 }
@@ -1178,6 +1363,8 @@ func runC17(c *Ctx) error {
 	c.Extra["manifest_consts"] = []int{thrC, ratioC, int(verC)} // the model reads them from gen/Consts.v
 	c.m17Witnesses()
 	c.m17OpenLevel()
+	c.m17TearAll(0)
+	c.m17TearAll(1)
 	c.m17AllCuts()
 	for i := 0; i < 12; i++ {
 		c.m17Boundary(i)
